@@ -262,6 +262,7 @@ func execC04(x *X) {
 				rd.Chunks = []int{int(op.I)}
 			}
 			rd.Zero = int(op.J)
+			rd.EOFWithData = op.ID%2 == 0
 			out, err := cli.Build(context.Background(), &cli.BuildOptions{ParseOptions: &cli.ParseOptions{Input: rd}})
 			if err != nil {
 				// Build also validates; an invalid but calculable document is not this property's concern
